@@ -156,7 +156,7 @@ def run(ctx):
                 "Symbols on rendered sources; a shard of the concurrent cases runs under the race detector; distinct = distinct "
                 "(files, partition, mode); non-trivial = at least two parts or a collision")
     cases = []
-    for k in range(ctx.budget(260, 3000)):
+    for k in range(ctx.budget(200, 3000)):
         # concurrent lookups in the plain build only once Lookup takes the read lock: on the pinned code they can
         # abort the whole process (Go runtime: concurrent map read and map write); the race shard below restarts
         cases.append(gen_part_case(rng, conc=(k % 2 == 1), spin=(1 if (k % 4 == 3 and LOCK_REPAIRED) else 0)))
@@ -212,7 +212,7 @@ def run(ctx):
     # Compile; the parts one after another, later parts resolving already compiled files to those results
     # (reuse); the parts (sequentially or concurrently) each compiling everything it needs from source
     ccases = []
-    for k in range(ctx.budget(60, 600)):
+    for k in range(ctx.budget(40, 600)):
         c = gen_part_case(rng, conc=(k % 2 == 0), spin=(1 if (k % 4 == 0 and LOCK_REPAIRED) else 0))
         srcs = {"f%d.proto" % f["id"]: render_proto(f) for f in c["fs"]}
         base = {"mode": "compile", "sources": srcs, "unames": c["together"]["unames"], "uexts": c["together"]["uexts"]}
